@@ -107,8 +107,11 @@ def r20_3(ctx: Ctx) -> RuleResult:
                     callee_name(c) == "_ensure_pointer" and c.args and path_of(c.args[0]) == a.arg
                     for c in calls(b.node)
                 )
+                routed_ids = {
+                    id(x) for c in calls(b.node) if callee_name(c) == "_ensure_pointer" for x in ast.walk(c)
+                }
                 used_raw = any(
-                    isinstance(x, ast.Name) and x.id == a.arg and isinstance(x.ctx, ast.Load)
+                    isinstance(x, ast.Name) and x.id == a.arg and isinstance(x.ctx, ast.Load) and id(x) not in routed_ids
                     for c in calls(b.node) if callee_name(c) != "_ensure_pointer"
                     for x in ast.walk(c)
                 )
